@@ -79,7 +79,9 @@ Pool == <<
   \* (rule 16 is the only redirect for /ccc)
   [W("/ccc") EXCEPT !.exc = TRUE, !.mkind = "redirect-rule", !.mval = "r2"],
   \* 33 (addable): a TAGGED csp rule added one at a time is a csp rule (not a blocking rule) while its tag is on
-  [W("x.com^") EXCEPT !.left = "dpipe", !.mkind = "csp", !.mval = "d5", !.tag = "t1"]
+  [W("x.com^") EXCEPT !.left = "dpipe", !.mkind = "csp", !.mval = "d5", !.tag = "t1"],
+  \* 34 (addable): an exception that carries $important is an EXCEPTION (rule 10 blocks /ab-)
+  [W("/ab-") EXCEPT !.exc = TRUE, !.important = TRUE]
 >>
 \* resources (C06: answers are a function of the LOADED resources): r1 has the alias al1, a later resource
 \* NAMED al1 collides with it - whichever is added first wins; p1 needs a permission and is never served
@@ -98,7 +100,7 @@ PoolX == Pool
 \* wireDropsRemoveparam, decided by C08 - so an engine that reloads would lose them)
 InitRules == IF InitSet = "full" THEN <<1, 2, 3, 4, 5, 6, 7, 8, 10, 11, 23, 24, 26, 27>> \o (IF Mode = "blocker" THEN <<30, 31>> ELSE <<>>)
              ELSE IF InitSet = "res" THEN <<15, 16, 17, 18, 19, 13, 3>> ELSE <<3, 5, 7, 13>>
-Addable == IF Mode # "blocker" THEN {} ELSE IF InitSet = "res" THEN {20, 21, 29, 32} ELSE {9, 12, 14, 20, 21, 22, 25, 28, 29, 33}
+Addable == IF Mode # "blocker" THEN {} ELSE IF InitSet = "res" THEN {20, 21, 29, 32} ELSE {9, 12, 14, 20, 21, 22, 25, 28, 29, 33, 34}
 
 MkReq(path, alias) ==
   LET pre == Chars("https://") h == Chars("x.com") IN
